@@ -93,6 +93,17 @@ def items(tier):
                 ("prod2", ("c", -1), ("sum2", v("x1"), v("x2"))), ("sum2", v("x1"), ("neg", ("sum2", v("x2"), v("x3")))),
                 ("sum3", v("x1"), ("neg", v("x2")), ("neg", ("prod2", v("x3"), v("x4")))),
             ]
+        # constant-exponent powers (printed without a pow() call) around composite bases, in every operand position
+        inner = ["prod2", "sum2", "neg"] + (["rem", "floordiv"] if mode == "int" else ["quot"])
+        outer = ["prod2", "neg", "sum2"] + (["rem", "floordiv"] if mode == "int" else ["quot"])
+        for pk in outer:
+            slots = skel.KINDS[pk].slots
+            for i in range(len(slots)):
+                for powk in ("pow1", "pow2", "pow0"):
+                    for ck in inner:
+                        nm = skel.Namer()
+                        ch = [(powk, skel.node(ck, nm)) if j == i else nm.leaf(sj) for j, sj in enumerate(slots)]
+                        descs.append((pk, *ch))
         for d in descs:
             if not well_typed(d):
                 continue
